@@ -147,3 +147,284 @@ Proof.
   constructor; auto; rewrite ?Ho; auto.
   intros i. rewrite Hw. apply R7.
 Qed.
+
+Ltac drel H := destruct H as [R_flag R_need R_nw R_ph R_nodup R_zero R_owing].
+Ltac dx x := destruct x as [xf xn xp xw xo xk].
+
+Lemma wk_same_writers s s' : wk s' = wk s ->
+  forall i, (exists w, nth_error (wk s') i = Some w /\ is_write (wp w) = true) <->
+            (exists w, nth_error (wk s) i = Some w /\ is_write (wp w) = true).
+Proof. intros ->. tauto. Qed.
+
+Lemma sim_rt s x s' :
+  Inv s -> Rel s x -> rt_step current s = Some s' ->
+  exists x', dsteps (uring (c s)) x (events s LR) = Some x' /\ Rel s' x'.
+Proof.
+  intros [H1 _ _] HR Hs. pose proof (i_need _ H1) as Hneed. clear H1.
+  drel HR. dx x. dst s. unfold events, ph_rel, enter_arg in *. red_all.
+  cbn [dflag dneed dph dnw owing] in *. subst xf xn.
+  destruct p.
+  all: unfold rt_step in Hs; red_all.
+  all: unfold arm, submit, return_ok, do_reset, apply_cqe, ready, current in Hs; red_all;
+       cbn [v_flush_arms isnil] in Hs.
+  all: try (destruct ur, ex, nw0, rm).
+  all: split_hs Hs; try discriminate; inv_some Hs.
+  all: try (destruct np; [solve [cbn [np_pc] in Hneed; specialize (Hneed eq_refl eq_refl); discriminate Hneed]|]).
+  all: try cbn [between_calls negb] in R_ph.
+  all: repeat match goal with
+              | H : _ /\ _ |- _ => destruct H
+              | H : _ \/ _ |- _ => destruct H
+              | H : ?v = _ |- _ => is_var v; match type of v with dphase => subst v end
+              end; try discriminate.
+  all: try match goal with H : between_calls _ ?v = true |- _ => is_var v; destruct v; try discriminate H end.
+  all: try (specialize (R_nw ltac:(auto)); cbn [nw r] in R_nw; match type of R_nw with ?v = _ => subst v end).
+  all: cbn [dsteps dstep N.eqb Pos.eqb andb orb negb between_calls enter_arg N.mul N.add N.div N.odd
+            dflag dneed dph dnw owing nwakes isnil];
+       rewrite ?N.eqb_refl; cbn [andb orb negb];
+       repeat match goal with H : between_calls _ _ = true |- _ => rewrite H end;
+       cbn [andb orb negb].
+  all: try (eexists; split; [reflexivity|];
+            constructor; unfold ph_rel; red_all;
+            cbn [dflag dneed dph dnw owing nw r between_calls negb]; auto;
+            try (intros [HH|[HH|HH]]; discriminate);
+            try (intros i; rewrite ?writer_map by (apply consume_main_wp || apply consume_task_wp); apply R_owing);
+            fail).
+Qed.
+
+Lemma sim_kernel s x l s' :
+  (l = LKNotify \/ l = LKOther \/ l = LKTerm \/ l = LSkip) -> Rel s x -> step s l = Some s' ->
+  exists x', dsteps (uring (c s)) x (events s l) = Some x' /\ Rel s' x'.
+Proof.
+  intros Hl HR Hs. exists x. drel HR. dst s. unfold step, step_v in Hs. red_all.
+  destruct Hl as [->|[->|[->| ->]]]; cbn [events]; (split; [reflexivity|]).
+  - destruct (_ && _); [|discriminate]. inv_some Hs.
+    constructor; unfold ph_rel in *; red_all; auto.
+  - inv_some Hs. constructor; unfold ph_rel in *; red_all; auto.
+  - destruct (_ && _); [|discriminate]. inv_some Hs.
+    constructor; unfold ph_rel in *; red_all; auto.
+  - destruct p; try discriminate. destruct ur; [discriminate|]. inv_some Hs.
+    constructor; unfold ph_rel in *; red_all; auto.
+    + intros [H|[H|H]]; discriminate.
+    + cbn [between_calls negb]. rewrite R_ph. reflexivity.
+Qed.
+
+Lemma sim_timeout s x s' :
+  Rel s x -> rt_timeout s = Some s' ->
+  exists x', dsteps (uring (c s)) x (events s LTimeout) = Some x' /\ Rel s' x'.
+Proof.
+  intros HR Hs. drel HR. dx x. dst s. unfold rt_timeout, return_ok in Hs.
+  unfold events, ph_rel in *. red_all. cbn [dflag dneed dph dnw owing] in *. subst xf xn.
+  destruct p; try discriminate.
+  - (* RExtWait *)
+    inv_some Hs. eexists. split; [reflexivity|].
+    constructor; unfold ph_rel; red_all; cbn [dflag dneed dph dnw owing]; auto.
+    intros [H|[H|H]]; discriminate.
+  - (* RWait *)
+    subst xp. cbn [dsteps dstep N.eqb Pos.eqb andb negb dph].
+    destruct ur; inv_some Hs; (eexists; split; [reflexivity|]);
+      constructor; unfold ph_rel; red_all; cbn [dflag dneed dph dnw owing between_calls]; auto;
+      intros [H|[H|H]]; discriminate.
+Qed.
+
+Lemma mem_cons x y l : mem x (y :: l) = N.eqb x y || mem x l.
+Proof. reflexivity. Qed.
+
+Lemma tid_eqb_neq i j : i <> j -> N.eqb (tid j) (tid i) = false.
+Proof.
+  intros H. destruct (N.eqb (tid j) (tid i)) eqn:E; [|reflexivity].
+  apply N.eqb_eq in E. apply tid_inj in E. congruence.
+Qed.
+
+Lemma sim_local s x t s' :
+  Rel s x -> rt_local t s = Some s' ->
+  exists x', dsteps (uring (c s)) x (events s (LLocal t)) = Some x' /\ Rel s' x'.
+Proof.
+  intros HR Hs. drel HR. dx x. dst s. unfold rt_local, local_notify in Hs.
+  unfold events, ph_rel in *. red_all. cbn [dflag dneed dph dnw owing] in *. subst xf xn.
+  assert (Hz : mem 0 xo = false) by exact R_zero.
+  destruct p; try discriminate; destruct (Nat.ltb t (length sc)); try discriminate;
+    destruct (fl_idle fl) eqn:Hidle; inv_some Hs;
+    cbn [dsteps dstep N.eqb Pos.eqb andb negb dflag dneed dph dnw owing nwakes];
+    rewrite N.eqb_refl, Hz; cbn [andb negb]; rewrite ?Hidle;
+    cbn [dsteps dstep mem existsb N.eqb orb remove1 dflag dneed dph dnw owing nwakes];
+    (eexists; split; [reflexivity|]);
+    constructor; unfold ph_rel; red_all; cbn [dflag dneed dph dnw owing]; auto;
+    intros [H|[H|H]]; discriminate.
+Qed.
+
+(* thread i moves between two program points that are not the notifier write *)
+Lemma rel_thread s s' x i w w1 :
+  c s' = c s -> r s' = r s -> d s' = d s ->
+  nth_error (wk s) i = Some w -> wk s' = upd (wk s) i w1 ->
+  is_write (wp w) = false -> is_write (wp w1) = false ->
+  Rel s x -> Rel s' x.
+Proof.
+  intros Hc Hr Hd Hn Hw Ho Hn1 HR. drel HR.
+  constructor; unfold ph_rel in *; rewrite ?Hc, ?Hr, ?Hd; auto.
+  intros j. rewrite (R_owing j), Hw. destruct (Nat.eq_dec i j) as [->|Hne].
+  - split; intros (w' & Hn' & Hw').
+    + rewrite Hn in Hn'. inversion Hn'; subst. congruence.
+    + rewrite nth_error_upd_eq in Hn' by (eapply nth_error_lt; eauto). inversion Hn'; subst. congruence.
+  - rewrite nth_error_upd_neq by exact Hne. tauto.
+Qed.
+
+Lemma not_writer_mem s x i w :
+  Rel s x -> nth_error (wk s) i = Some w -> is_write (wp w) = false -> mem (tid i) (owing x) = false.
+Proof.
+  intros HR Hn Hw. destruct (mem (tid i) (owing x)) eqn:E; [|reflexivity].
+  apply (r_owing _ _ HR) in E. destruct E as (w' & Hn' & Hw'). rewrite Hn in Hn'.
+  inversion Hn'; subst. congruence.
+Qed.
+
+Lemma sim_fetch s x i w k :
+  Rel s x -> nth_error (wk s) i = Some w -> wp w = WFetch k ->
+  exists x',
+    dsteps (uring (c s)) x [(22%N, tid i, flag (d s))] = Some x' /\
+    Rel (set_w (s_d (d_flag (fl_wake (flag (d s))) (d s)) s) i
+           (w_wp (if fl_idle (flag (d s)) then WWrite k else after k) w)) x'.
+Proof.
+  intros HR Hn Hwp.
+  assert (Hm : mem (tid i) (owing x) = false).
+  { eapply not_writer_mem; eauto. rewrite Hwp. reflexivity. }
+  pose proof HR as HR0. drel HR. dx x. cbn [dflag dneed dph dnw owing] in *. subst xf.
+  cbn [dsteps dstep N.eqb Pos.eqb dflag dneed dph dnw owing nwakes].
+  rewrite N.eqb_refl, Hm. cbn [andb negb].
+  eexists. split; [reflexivity|].
+  set (f := flag (d s)) in *.
+  constructor; unfold ph_rel in *; cbn [dflag dneed dph dnw owing c d r wk set_w s_wk s_d d_flag flag need_push]; auto.
+  - destruct (fl_idle f); [|exact R_nodup]. constructor; [|exact R_nodup].
+    intros Hin. apply mem_in in Hin. congruence.
+  - destruct (fl_idle f); [|exact R_zero]. rewrite mem_cons, R_zero.
+    destruct (N.eqb 0 (tid i)) eqn:E; [apply N.eqb_eq in E; exfalso; eapply tid_nz; eauto|reflexivity].
+  - intros j. destruct (Nat.eq_dec i j) as [<-|Hne].
+    + rewrite nth_error_upd_eq by (eapply nth_error_lt; eauto).
+      destruct (fl_idle f).
+      * rewrite mem_cons, N.eqb_refl. cbn [orb]. split; [intros _|reflexivity].
+        eexists. split; [reflexivity|reflexivity].
+      * rewrite Hm. split; [discriminate|]. intros (w' & Hw' & Hx). inversion Hw'; subst.
+        cbn [wp w_wp] in Hx. rewrite after_not_write in Hx. discriminate.
+    + rewrite nth_error_upd_neq by exact Hne. rewrite <- (R_owing j).
+      destruct (fl_idle f); [|tauto]. rewrite mem_cons, (tid_eqb_neq i j Hne). cbn [orb]. tauto.
+Qed.
+
+Lemma sim_write s x i w k :
+  Rel s x -> nth_error (wk s) i = Some w -> wp w = WWrite k ->
+  exists x',
+    dsteps (uring (c s)) x [(23%N, tid i, 0%N)] = Some x' /\
+    Rel (set_w (s_d (d_efd (notify_efd (c s) (efd (d s))) (d s)) s) i (w_wp (after k) w)) x'.
+Proof.
+  intros HR Hn Hwp.
+  assert (Hm : mem (tid i) (owing x) = true).
+  { apply (r_owing _ _ HR). exists w. rewrite Hwp. auto. }
+  drel HR. dx x. cbn [dflag dneed dph dnw owing] in *.
+  cbn [dsteps dstep N.eqb Pos.eqb dflag dneed dph dnw owing nwakes]. rewrite Hm.
+  eexists. split; [reflexivity|].
+  constructor; unfold ph_rel in *; cbn [dflag dneed dph dnw owing c d r wk set_w s_wk s_d d_efd flag need_push]; auto.
+  - apply nodup_remove1. exact R_nodup.
+  - rewrite mem_remove1_neq; [exact R_zero|]. intros E. eapply tid_nz. symmetry. exact E.
+  - intros j. destruct (Nat.eq_dec i j) as [<-|Hne].
+    + rewrite nth_error_upd_eq by (eapply nth_error_lt; eauto).
+      rewrite mem_remove1_same by exact R_nodup. split; [discriminate|].
+      intros (w' & Hw' & Hx). inversion Hw'; subst. cbn [wp w_wp] in Hx.
+      rewrite after_not_write in Hx. discriminate.
+    + rewrite nth_error_upd_neq by exact Hne. rewrite <- (R_owing j).
+      rewrite mem_remove1_neq; [tauto|]. intros E. apply tid_inj in E. congruence.
+Qed.
+
+Lemma sim_w s x i s' :
+  Rel s x -> w_step current s i = Some s' ->
+  exists x', dsteps (uring (c s)) x (events s (LW i)) = Some x' /\ Rel s' x'.
+Proof.
+  intros HR Hs. unfold w_step in Hs. unfold events.
+  destruct (nth_error (wk s) i) as [w|] eqn:Hn; [|discriminate].
+  destruct (wp w) eqn:Hwp; destruct (tgt w) as [t|] eqn:Htg; try discriminate.
+  all: try (
+    (* no event: the thread moves between non-writing points *)
+    exists x; split; [reflexivity|];
+    repeat match type of Hs with
+           | context [match ?y with _ => _ end] => destruct y eqn:?
+           | context [if ?b then _ else _] => destruct b eqn:?
+           end; try discriminate; inv_some Hs; try exact HR;
+    (eapply (rel_thread s _ x i w); try reflexivity; eauto;
+     rewrite ?Hwp; cbn [wp w_wp is_write]; try reflexivity;
+     repeat match goal with |- context [if ?b then _ else _] => destruct b end; reflexivity); fail).
+  all: inv_some Hs.
+  - eapply sim_fetch; eauto.
+  - eapply sim_fetch; eauto.
+  - eapply sim_write; eauto.
+  - eapply sim_write; eauto.
+Qed.
+
+Theorem acceptor_simulates s x l s' :
+  Inv s -> Rel s x -> step s l = Some s' ->
+  exists x', dsteps (uring (c s)) x (events s l) = Some x' /\ Rel s' x'.
+Proof.
+  intros Hi HR Hs. destruct l.
+  - apply sim_rt; auto.
+  - apply sim_timeout; auto.
+  - apply (sim_kernel s x LSkip); auto.
+  - apply sim_local; auto.
+  - apply (sim_kernel s x LKNotify); auto.
+  - apply (sim_kernel s x LKOther); auto.
+  - apply (sim_kernel s x LKTerm); auto.
+  - apply sim_w; auto.
+Qed.
+
+Fixpoint trace (s : st) (ls : list label) : list (N * N * N) :=
+  match ls with
+  | [] => []
+  | l :: rest =>
+    events s l ++ match step s l with Some s' => trace s' rest | None => [] end
+  end.
+
+Lemma dsteps_app u x e1 e2 :
+  dsteps u x (e1 ++ e2) = match dsteps u x e1 with Some x' => dsteps u x' e2 | None => None end.
+Proof.
+  revert x. induction e1 as [|[[k th] a] e1 IH]; intros x; [reflexivity|].
+  cbn [app dsteps]. destruct (dstep u x k th a); [apply IH|reflexivity].
+Qed.
+
+Theorem run_accepted ls : forall s x s',
+  Inv s -> Rel s x -> steps s ls = Some s' ->
+  exists x', dsteps (uring (c s)) x (trace s ls) = Some x' /\ Rel s' x'.
+Proof.
+  induction ls as [|l ls IH]; intros s x s' Hi HR Hs.
+  - cbn in Hs. inv_some Hs. exists x. split; [reflexivity|exact HR].
+  - unfold steps in Hs. cbn [steps_v] in Hs. cbn [trace]. fold (step s l).
+    destruct (step_v current s l) as [s1|] eqn:E; [|discriminate].
+    change (step_v current s l) with (step s l) in E. rewrite E.
+    destruct (acceptor_simulates s x l s1 Hi HR E) as (x1 & Hd & HR1).
+    rewrite dsteps_app, Hd.
+    assert (Hc : uring (c s1) = uring (c s)) by (rewrite (step_cfg _ _ _ E); reflexivity).
+    rewrite <- Hc. apply IH; auto. eapply inv_step; eauto.
+Qed.
+
+Lemma rel_init cf n tg : Rel (init cf n tg) dinit.
+Proof.
+  constructor; cbn; auto.
+  - constructor.
+  - intros i. split; [discriminate|]. intros (w & Hn & Hw).
+    apply nth_error_init_wk in Hn. rewrite Hn in Hw. discriminate.
+Qed.
+
+(* every run of the LTS from an initial state, projected to its hook events,
+   is accepted by the driver-level acceptor *)
+Theorem reachable_accepted cf n tg ls s :
+  targets_ok n tg -> steps (init cf n tg) ls = Some s ->
+  exists x, dsteps (uring cf) dinit (trace (init cf n tg) ls) = Some x /\ Rel s x.
+Proof.
+  intros Hok Hs. apply (run_accepted ls (init cf n tg) dinit s); auto.
+  - apply init_inv. exact Hok.
+  - apply rel_init.
+Qed.
+
+Theorem model_runs_accepted cf n tg ls s :
+  targets_ok n tg -> steps (init cf n tg) ls = Some s ->
+  exists x, dsteps (uring cf) dinit (trace (init cf n tg) ls) = Some x /\
+            dflag x = flag (d s) /\ dneed x = need_push (d s) /\
+            (forall i, mem (tid i) (owing x) = true <->
+                       exists w, nth_error (wk s) i = Some w /\ is_write (wp w) = true).
+Proof.
+  intros Hok Hs. destruct (reachable_accepted cf n tg ls s Hok Hs) as (x & Hd & HR).
+  exists x. split; [exact Hd|]. destruct HR. auto.
+Qed.
